@@ -37,7 +37,7 @@ OBJ_KEYS = ["k", "l"]
 PRIMS = ["String", "&'static str", "i8", "i16", "i32", "i64", "i128", "isize", "u8", "u16", "u32", "u64", "u128", "usize", "f32", "f64", "bool",
          "Color", "chrono::NaiveDate", "serde_json::Value", "Vec<u8>"]
 LIT_VALUES = [None, True, False, 0, 1, -1, 5, 127, 128, -128, -129, 255, 256, 32767, 32768, 65535, 65536, 2**31 - 1, 2**31, -2**31, -2**31 - 1, 2**32 - 1, 2**32,
-              2**63 - 1, 2**63, -2**63, 2**64 - 1, 1.5, -0.25, 0.1, 100.125,
+              2**63 - 1, 2**63, -2**63, 2**64 - 1, 1.5, -0.25, 0.1, 100.125, 10.0, -3.0, 0.0, 255.0, 256.0, -129.0, 4294967296.0,
               "", "hi", "a\"b", "0", "42", "-7", "+5", "-", "+", "--1", "1 ", " 1", "1_0", "0x10", "９", "300", "-129", "65536", "4294967296", "9223372036854775807", "9223372036854775808",
               "-9223372036854775808", "-9223372036854775809", "18446744073709551615", "18446744073709551616", "1.5", "-0.25", "1.50", ".5", "5.", ".", "1.2.3", "abc",
               "true", "false", "TRUE", "True", "yes", "YES", "1", "no", "on",
@@ -122,6 +122,9 @@ def member_space(ctx, r, n_random):
             if abs(v) < 10**6:
                 out.append((sc("integer", fmt), str(v), ("default",), True))      # string-encoded
         out.append((sc("integer", fmt), "+5", ("default",), True))
+        # JSON has one number type: `10.0` is the integer 10 (serde_json keeps it as a float; finding F17-8, repaired)
+        for v in (10.0, 0.0, 1.0):
+            out.append((sc("integer", fmt), v, ("default",), True))
     for fmt in NUM_FORMATS:
         for v in DECS + [0, 1, -2, 1000]:
             out.append((sc("number", fmt), v, ("default", "const", "enum1"), True))
@@ -149,7 +152,10 @@ def cases(ctx):
         if e is not ...: s["enum"] = e
         out.append({"op": "dflt.extract", "in": {"schema": s}})
     # ---- K: json_to_rust_literal over TypeRef x JSON value ---------------------------------------
-    lit = [(p, v, n, a) for p in PRIMS for v in LIT_VALUES for n in (False, True) for a in (False, True) if p not in ("f32", "f64") or float_ok(v)]
+    # a NUMBER written into a string- or bool-typed member (a type mismatch in the document) goes by its spelling (`10.0` is a
+    # float for serde_json), which the canonical-decimal model does not carry
+    spelled = lambda p, v: isinstance(v, float) and v == int(v) and p in ("String", "&'static str", "bool")
+    lit = [(p, v, n, a) for p in PRIMS for v in LIT_VALUES for n in (False, True) for a in (False, True) if (p not in ("f32", "f64") or float_ok(v)) and not spelled(p, v)]
     if ctx.quick:
         lit = [x for x in lit if not x[3]] + r.sample([x for x in lit if x[3]], 300)
     for p, v, n, a in lit:
